@@ -3,7 +3,13 @@ import random
 from .. import common, chunks
 
 LINES = {1: "clc", 2: "xor eax, eax", 3: "mov rax, rbx", 7: "nop7", 10: "mov rax, 0x1122334455667788",
-         13: "mov qword [eax+ebx*8+0x11223344], 0x55667788"}
+         13: "mov qword [eax+ebx*8+0x11223344], 0x55667788",
+         # every other length the library emits (the keys are labels: the lengths the room model works with are MEASURED per build)
+         4: "add rax, 1", 5: "mov eax, 0x11223344", 6: "add ebx, 0x11223344", 8: "mov qword [rax+0x10], 0x11223344", 9: "mov qword [rax+rbx*8+0x10], 0x11223344",
+         11: "mov dword [rax+rbx*8+0x11223344], 0x55667788", 12: "mov qword [rax+rbx*8+0x11223344], 0x55667788", 14: "mov word [r8d+r9d*8+0x11223344], 0x1122",
+         15: "imul r9, [r8d+ebx*8+0x11223344], 0x11223344", 16: "add qword [rax+rbx*8+0x11223344], 0x1122334455", 17: "test qword [r8d+r9d*8+0x11223344], 0x1122334455667788"}
+SHORT = [1, 2, 3, 7, 10, 13]
+ALL_LENS = sorted(LINES)
 BOGUS = "bogus rax, 1"
 RESERVE = 20
 
@@ -24,12 +30,16 @@ def gen_history(rnd, n, maxops=6):
             ops.append(("setoff", rnd.choice(ks + [rnd.randrange(0, n + 1)])))
         else:
             kind = rnd.random()
-            L = rnd.choice([1, 1, 2, 3, 7, 10, 13])
+            L = rnd.choice([1, 1, 2, 3, 7, 10, 13] + ALL_LENS)
             if kind < 0.5:
-                m = rnd.choice([1, 2, 3, max(1, n // L + 3), max(1, (n - 20) // L), max(1, (n - 20) // L + 1)])
+                m = rnd.choice([1, 2, 3, max(1, n // L + 3), max(1, (n - 20) // L), max(1, (n - 20) // L + 1), max(1, rnd.randrange((n - 20) // L - 2, n // L + 4))])
                 prog = [L] * min(m, 3000)
+            elif kind < 0.75:
+                prog = [rnd.choice(SHORT) for _ in range(rnd.randrange(1, 12))]
             else:
-                prog = [rnd.choice([1, 2, 3, 7, 10, 13]) for _ in range(rnd.randrange(1, 12))]
+                # mixed programs of all lengths, up to as many lines as fill the buffer
+                pool = rnd.choice([ALL_LENS, [14, 15, 16, 17], [16, 17, 17, 1], [11, 12, 13, 14, 15]])
+                prog = [rnd.choice(pool) for _ in range(rnd.randrange(1, max(2, min(400, n // 8 + 3))))]
             if rnd.random() < 0.15:
                 prog.insert(rnd.randrange(len(prog) + 1), 0)
             if rnd.random() < 0.25:
@@ -146,13 +156,23 @@ def run(tier):
             jobs.append(("asan", n, "H", h, "template%d" % ti))
             jobs.append(("plain", n, "R", h, "template%d" % ti))
             jobs.append(("plain", n, "L", h, "template%d" % ti))
+    # runs of one instruction length that end around the end of the buffer: every length the library emits x buffer lengths x line
+    # counts from "fits with room to spare" to "does not fit", in plain, chunk-fitting and counting mode (a room check that is done
+    # for the call as a whole, or with an assumed instruction length, is wrong for some of these)
+    ns = [64, 100, 185, 200, 255, 256, 320, 333, 400, 512, 777, 1000, 1520, 2048] if not full else list(range(40, 400, 7)) + list(range(400, 3000, 97))
+    for L in ALL_LENS:
+        for n in ns:
+            base = max(1, (n - 20) // L)
+            for m in range(max(1, base - 1), n // L + 3):
+                for pre, op in (([], ("asm", [L] * m)), ([("chunk", 32)], ("asm", [L] * m)), ([], ("cnt", 16, [L] * m)), ([("setoff", 13)], ("asm", [L] * m))):
+                    jobs.append(("asan", n, "H", pre + [op, ("asm", [1])], "rungrid"))
     nrand = 20000 if not full else 600000
     for k in range(nrand):
-        n = rnd.choice([100, 400, 4096, 4097, 6000]) if k % 2 else rnd.randrange(0, 200)
+        n = rnd.choice([100, 400, 4096, 4097, 6000]) if k % 2 else (rnd.randrange(0, 200) if k % 4 else rnd.randrange(200, 2500))
         h = gen_history(rnd, n)
         fl, place = rnd.choice([("asan", "H"), ("plain", "R"), ("plain", "L")])
         jobs.append((fl, n, place, h, "random"))
-    stats = {"cases": len(jobs), "calls": 0, "calls_failed_as_required": 0, "calls_succeeded": 0, "template_cases": 65 * 40 * 3, "random_cases": nrand,
+    stats = {"cases": len(jobs), "calls": 0, "calls_failed_as_required": 0, "calls_succeeded": 0, "template_cases": 65 * 40 * 3, "random_cases": nrand, "rungrid_cases": sum(1 for j in jobs if j[4] == "rungrid"),
              "guard_placements": {"H(asan redzones)": 0, "R(guard page after)": 0, "L(guard page before)": 0}}
     for fl, binary in (("asan", asan), ("plain", plain)):
         sel = [j for j in jobs if j[0] == fl]
@@ -258,9 +278,9 @@ def run(tier):
             v.violation(case, bad[0], bad[1])
         else:
             v.distinct(("reserve", t, n))
-    v.cov["rule"] = ("histories create(n) + <=6 ops from {option setters, chunk size, asm_set_offset(0<=k<=n), assemble, counting assemble} with 1/2/3/7/10/13-byte instructions, malformed lines and "
+    v.cov["rule"] = ("histories create(n) + <=6 ops from {option setters, chunk size, asm_set_offset(0<=k<=n), assemble, counting assemble} with instructions of every length 1..17 (runs and mixtures), malformed lines and "
                      "failing calls followed by further calls without resetting the offset; n = 0..64 exhaustively x a fixed family of 40 templates x 3 guard placements (ASan heap redzones; guard page "
-                     "directly after / directly before the buffer with canary slack on the other side), then seeded random histories on n in {0..199,100,400,4096,4097,6000}. Monitors: guard-page fault, "
+                     "directly after / directly before the buffer with canary slack on the other side), a grid of runs of each instruction length that end around the end of buffers of 64..2048 bytes (plain, fitting, counting, start offset 13), then seeded random histories on n in {0..2499,4096,4097,6000}. Monitors: guard-page fault, "
                      "canary, snapshot of [0,start) around every call, ASan, and the room model (an instruction starting with < 20 bytes left => the call must fail). Plus: every line of the "
                      "encoder corpora (all memory shapes incl. displacements spelt as 64-bit two's complement, immediates, vector and branch forms; sampled in quick) assembled with exactly 20 bytes of room in front of a guard page")
     v.cov["exhaustive"] = True
